@@ -301,9 +301,31 @@ Print Assumptions C03_restart_keeps_psk_and_identity.
 Theorem C03_psk_is_configured : forall (d : dev) (evs : list ev) (p : peer),
   NoDup (ids d) -> In p (d_peers (final dev_step d evs)) ->
   exists p0, In p0 (d_peers d) /\ p_id p0 = p_id p /\ psk (p_hs p) = psk (p_hs p0) /\
-             rstatic (p_hs p) = rstatic (p_hs p0) /\ ss (p_hs p) = ss (p_hs p0).
+             rstatic (p_hs p) = rstatic (p_hs p0).
 Proof. exact psk_is_configured. Qed.
 Print Assumptions C03_psk_is_configured.
+
+(* The cached static-static secret follows the identity: after ANY history incl.
+   private-key changes (SetPrivateKey), restarts, handshakes and cookie replies,
+   every peer's precomputedStaticStatic is DH(the device's CURRENT static key,
+   that peer's static key) and remoteStatic is that peer's key -- exactly the
+   premises ([peers_ok], [ss h = dhn sdev (rstatic h)]) of create_initiation_is_paper,
+   consume_initiation_is_paper and handshake_completes_mirrored, which therefore
+   apply under the new identity. *)
+Theorem C03_ss_follows_identity : forall (d : dev) (evs : list ev),
+  dev_ok d ->
+  let d' := final dev_step d evs in
+  peers_ok (d_static d') (hs_list d') /\
+  forall p, In p (d_peers d') -> rstatic (p_hs p) = p_id p /\ ss (p_hs p) = dhn (d_static d') (p_id p).
+Proof. exact ss_follows_identity. Qed.
+Print Assumptions C03_ss_follows_identity.
+
+(* SetPrivateKey installs the new key (unless it is the current one or a configured peer's) *)
+Theorem C03_set_private_key_identity : forall d new,
+  new <> d_static d -> (forall p, In p (d_peers d) -> p_id p <> new) ->
+  d_static (fst (dev_step d (ESetPrivateKey new))) = new.
+Proof. exact set_private_key_identity. Qed.
+Print Assumptions C03_set_private_key_identity.
 
 (* "absent a cookie": a cookie reply that does not authenticate under
    Hash("cookie--" || S_peer) with the last MAC1 sent as associated data leaves
@@ -328,7 +350,8 @@ Print Assumptions C03_unauthentic_cookie_reply_ignored.
 Definition ex_dev : dev :=
   {| d_static := 1%nat;
      d_peers := [new_peer 2%nat (new_handshake (Some 1%nat) 2%nat (psk_term 7));
-                 new_peer 3%nat (new_handshake (Some 1%nat) 3%nat (psk_term 0))] |}.
+                 new_peer 3%nat (new_handshake (Some 1%nat) 3%nat (psk_term 0))];
+     d_olds := [] |}.
 
 Example C03_nonvacuous_responder :
   match Paper.initiation 2%nat 20%nat (TPub 1%nat) 5 1000 with
@@ -450,5 +473,37 @@ Example C03_nonvacuous_cookie :
     | _ => false
     end
   | _ => false
+  end = true.
+Proof. vm_compute. reflexivity. Qed.
+
+(* key rotation 1 -> 9 with peers configured: an initiation for the old key is refused, one for
+   the new key is answered and completes with mirrored keys; the device's own initiation carries
+   the new key and opens at the peer; the old confirmed keypair no longer sends *)
+Example C03_nonvacuous_key_change :
+  match Paper.initiation 2%nat 20%nat (TPub 1%nat) 5 1000 with
+  | Some (s0, m0) =>
+    let d1 := fst (dev_step ex_dev (EInit m0 30%nat 2000)) in
+    let d2 := fst (dev_step d1 (ESetPrivateKey 9%nat)) in
+    match Paper.initiation 2%nat 21%nat (TPub 1%nat) 6 1001, Paper.initiation 2%nat 22%nat (TPub 9%nat) 7 1002 with
+    | Some (_, mold), Some (s1, mnew) =>
+      match dev_step d2 (EInit mold 31%nat 2001), dev_step d2 (EInit mnew 32%nat 2002) with
+      | (_, []), (d3, [OResp 2%nat r]) =>
+        match Paper.consume_response 2%nat 22%nat s1 (psk_term 7) r with
+        | Some s2 =>
+          match dev_step d3 (EKick 3%nat 40%nat 9 3000) with
+          | (_, [OInit 3%nat mi]) =>
+            match Paper.consume_initiation 3%nat (fun pk => teqb pk (TPub 9%nat)) mi with
+            | Some _ => (d_static d3 =? 9)%nat
+            | None => false
+            end
+          | _ => false
+          end
+        | None => false
+        end
+      | _, _ => false
+      end
+    | _, _ => false
+    end
+  | None => false
   end = true.
 Proof. vm_compute. reflexivity. Qed.
